@@ -728,6 +728,28 @@ class Engine:
                         else: i_ += 1
                     if nr <= 8:
                         return IntV(ae + y - (2 if op == 'BitXor' else 1) * e_, ty)
+            if op in ('BitAnd', 'BitOr', 'BitXor') and ty in INT_RANGES and INT_RANGES[ty][0] < 0:
+                # signed words: the same true lemmas, but only for non-negative operands (two's-complement patterns of negative values are not arithmetised)
+                lo, hi = INT_RANGES[ty]; nb = (hi + 1).bit_length() - 1
+                r_ = z3.Int(self.ex.fresh_name('bitop_' + op))
+                L = []
+                ks = list(range(1, 17)) + [x for x in (24, 32, 40, 48, 56, 60, 64, 80, 96, 112) if x < nb]
+                if op == 'BitOr':
+                    L += [r_ >= ae, r_ >= be, r_ <= ae + be]
+                    for k in ks:
+                        m_ = 1 << k
+                        L.append(z3.Implies(z3.And(ae % m_ == 0, be < m_), r_ == ae + be)); L.append(z3.Implies(z3.And(be % m_ == 0, ae < m_), r_ == ae + be))
+                elif op == 'BitAnd':
+                    L += [r_ >= 0, r_ <= ae, r_ <= be]
+                    for k in ks:
+                        m_ = 1 << k
+                        L.append(z3.Implies(z3.And(ae % m_ == 0, be < m_), r_ == 0)); L.append(z3.Implies(z3.And(be % m_ == 0, ae < m_), r_ == 0))
+                else:
+                    L += [r_ >= 0, r_ <= ae + be, z3.Implies(ae == be, r_ == 0)]
+                self.ex.assumptions.append(z3.And(r_ >= lo, r_ <= hi, z3.Implies(z3.And(ae >= 0, be >= 0), z3.And(L))))
+                if not hasattr(self.ex, 'bitops'): self.ex.bitops = []
+                self.ex.bitops.append((op, ae, be, r_))
+                return IntV(r_, ty)
             if op in ('BitAnd', 'BitOr', 'BitXor') and ty in INT_RANGES and INT_RANGES[ty][0] == 0:
                 # symbolic (x) symbolic on unsigned words: a fresh result constrained by *true* lemmas about the operator
                 # (bounds + the disjoint-bits cases).  Sound over-approximation; a model that needs more is reported UNDECIDED.
@@ -736,13 +758,13 @@ class Engine:
                 L = [r_ >= 0, r_ <= hi]
                 if op == 'BitOr':
                     L += [r_ >= ae, r_ >= be, r_ <= ae + be]
-                    for k in range(1, min(nb, 17)):
+                    for k in (list(range(1, min(nb, 17))) + [x for x in (24, 32, 40, 48, 56, 60, 64, 80, 96, 112) if x < nb]):
                         m_ = 1 << k
                         L.append(z3.Implies(z3.And(ae % m_ == 0, be < m_), r_ == ae + be))
                         L.append(z3.Implies(z3.And(be % m_ == 0, ae < m_), r_ == ae + be))
                 elif op == 'BitAnd':
                     L += [r_ <= ae, r_ <= be]
-                    for k in range(1, min(nb, 17)):
+                    for k in (list(range(1, min(nb, 17))) + [x for x in (24, 32, 40, 48, 56, 60, 64, 80, 96, 112) if x < nb]):
                         m_ = 1 << k
                         L.append(z3.Implies(z3.And(ae % m_ == 0, be < m_), r_ == 0))
                         L.append(z3.Implies(z3.And(be % m_ == 0, ae < m_), r_ == 0))
@@ -1296,6 +1318,10 @@ class Engine:
             am_ = re.match(r'^\[(.*); (\d+)\]$', lv.ty.strip()) if isinstance(lv, StructV) else None
             if am_ and isinstance(lst, RefV):        # fixed array seen through a slice reference
                 if k_ >= int(am_.group(2)): return EnumV('Option', 0, {})
+                return EnumV('Option', 1, {1: {0: RefV(lst.cell, lst.path + (('i', k_),))}})
+            if isinstance(lv, StructV) and lv.ty == 'array' and not lv.lazy and isinstance(lst, RefV):      # an evaluated constant array (e.g. EXP_10_I80F48): its length is the number of elements
+                n_ = len([k for k in lv.fields if isinstance(k, int)])
+                if k_ >= n_: return EnumV('Option', 0, {})
                 return EnumV('Option', 1, {1: {0: RefV(lst.cell, lst.path + (('i', k_),))}})
             if isinstance(lv, StructV) and '__len' in lv.fields and isinstance(lst, RefV):
                 if k_ not in lv.fields: lv.fields[k_] = self.ex.fresh(lv.fields.get('__elemty', mm.group(1)), f'{lv.name}[{k_}]')
